@@ -11,7 +11,7 @@ What is proved here is the *reason* concurrent calls return the single-threaded 
      (`decide` over the table the translator extracts from the current sources),
  T4  the access programs of the kernels (erode, convolve, label, cwatershed, labeled folds) touch only
      the call's arguments and its own arrays, so any family of calls with disjoint outputs is confined
-     and T1 applies to it; the erode / convolve / labeled-fold / label programs compute the models' values;
+     and T1 applies to it; all five programs compute the models' values in their solo run;
      the roles of every program stay inside the kernel's arity; a call that raises after any number of
      kernel steps has written nothing outside its own arrays.
 Real data races inside the compiled C++ and CPython's own guarantees are runtime behaviour and are
@@ -22,6 +22,7 @@ import Mahotas.Proofs.C12Kernels
 import Mahotas.Proofs.C12Roles
 import Mahotas.Proofs.C12Exceptions
 import Mahotas.Proofs.C12Label
+import Mahotas.Proofs.C12Cwatershed
 import Mahotas.Generated.Statics
 namespace Mahotas.C12
 open Mahotas
@@ -220,7 +221,7 @@ compiled thread program is `Step.Confined t` (writes `priv t`, reads `priv t` or
 The read set over-approximates where the C++ leaves a loop early (`erode`'s break at the dtype minimum).
 How the programs relate to the kernels' VALUES is a separate matter: see `C12_erode_program_computes_model`,
 `C12_convolve_program_computes_model`, `C12_labeled_fold_program_computes_model`,
-`C12_label_program_computes_model` (tied) and `C12_cwatershed_trace_partial` (sets only). -/
+`C12_label_program_computes_model`, `C12_cwatershed_program_computes_model` (all five tied). -/
 theorem C12_kernel_confined (k : Kernel) (c : Call) (hne : c.outputs ≠ []) :
     (∀ s ∈ (k.call c).prog, s.Within c) ∧
     (∀ l ∈ writeSet (k.call c).prog, l.arr ∈ c.outputs) ∧
@@ -383,22 +384,39 @@ theorem C12_label_program_computes_model (kcs : List KCall) (t : Nat) (md : Mode
       (C03.labelModel md shape data vBc.shape bc).2 + 1 :=
   label_solo_value kcs t md shape data vBc bc aBc aL aF aReg aSeen hk hLF hLR hLS hRS m hM
 
-/-- **C12-T4 (partial: cwatershed).** For the access trace of `cwatershed` (generated along the run of
-`C04.modelInit`/`C04.extractMin`/`C04.modelVisit`: result, `status`, priority queue, `lines`, neighbour table), for every
-input and every footprint with an owned array: the write set lies in the call's owned arrays and the read set in its
-argument and owned arrays.
-MISSING: this program is a *trace replay* — the steps that store `status`, `lines` and the queue cells store the value the
-model stored, they do not recompute it from the values read — so its solo run is NOT proved to leave
-`C04.cwatershedModel` in the output locations, and the offsets are not proved to lie inside the buffers (`npos < N`:
-C04/C10 territory). Only the read/write SETS at array granularity (and, by `C12_kernel_roles_wellformed`, that the roles
-stay within `Kernel.arity`) are proved. (`label`, formerly in the same position, is now tied:
-`C12_label_program_computes_model`.) -/
-theorem C12_cwatershed_trace_partial (c : Call) (hne : c.outputs ≠ [])
-    (vS vM vBc : C08.View) (surf markers : Img Int) (bc : Array Int) :
-    let p := ((Kernel.cwatershed vS vM vBc surf markers bc).call c).prog
-    (∀ l ∈ writeSet p, l.arr ∈ c.outputs) ∧ (∀ l ∈ readSet p, l.arr ∈ c.inputs ∨ l.arr ∈ c.outputs) := by
-  have h := C12_kernel_confined (Kernel.cwatershed vS vM vBc surf markers bc) c hne
-  exact ⟨h.2.1, h.2.2.1⟩
+/-- **C12-T4 (tie: the cwatershed program computes `C04.cwatershedModel`).** Let call number `t` of ANY family of calls
+be `cwatershed` on arrays `[aS, aM, aBc]` (surface, markers, Bc) → `[aRes, aSt, aQ, aLn, aT, aR]` (result, `status`, priority
+queue, `lines`, neighbour table, register) with `res`, `status`, `lines` distinct from each other and from the queue, the
+table and the register, and the markers array distinct from the owned arrays written before it is read (`CDist`). Every
+value the access program stores into `res`, `status`, `lines` is a constant the C++ stores as a constant
+(`status[..] = grey/black`, `lines[..] = true`) or a copy of a value it reads (`res[mpos] = *miter`,
+`rdata[npos] = rdata[next.position]`); the addresses are generated along the run of the model (the order in which the queue
+delivers the pixels is data dependent). If markers and surface have the same shape, `Bc` has their rank, the initial
+memory shows the markers through `vM`'s iterator and holds zeros in the `res` and `lines` buffers (the wrapper's
+`np.zeros`), then after the SOLO run of the compiled program, for every pixel `j`: `res[j]`, `status[j]` (0 white / 1 grey
+/ 2 black) and `lines[j]` (0/1) are exactly those of `C04.cwatershedModel surf markers bshape bc` — the model the driver
+runs (`c04 kind=ws`), proved equal to the specification flooding in C04. That every address generated lies inside the
+buffers (`next.position < N`, `npos < N`) is part of the proof (from `C04.Rel`: `C04.visit_rel`, `C04.rel_pop`,
+`C04.nbCheck_sound`). The surface VALUES are irrelevant for this statement: they only flow into queue cells; the pop
+order is the model's. -/
+theorem C12_cwatershed_program_computes_model (kcs : List KCall) (t : Nat) (vS vM vBc : C08.View)
+    (surf markers : Img Int) (bc : Array Int) (aS aM aBc aRes aSt aQ aLn aT aR : Nat)
+    (hk : kcs[t]? = some ((Kernel.cwatershed vS vM vBc surf markers bc).call
+      ⟨[aS, aM, aBc], [aRes, aSt, aQ, aLn, aT, aR]⟩))
+    (hd : CDist aM aRes aSt aQ aLn aT aR)
+    (hms : markers.shape = surf.shape) (hb : vBc.shape.length = surf.shape.length) (m : Mem)
+    (hres : ∀ j, j < shapeSize surf.shape → m ((KLoc.mk aRes (j : Int)).toLoc (kcs.map (·.call))) = 0)
+    (hln : ∀ j, j < shapeSize surf.shape → m ((KLoc.mk aLn (j : Int)).toLoc (kcs.map (·.call))) = 0)
+    (hmk : ∀ i, i < shapeSize surf.shape →
+      m ((KLoc.mk aM (iterAddr vM i)).toLoc (kcs.map (·.call))) = markers.data.getD i 0)
+    (j : Nat) (hj : j < shapeSize surf.shape) :
+    solo (compile kcs) t m ((KLoc.mk aRes (j : Int)).toLoc (kcs.map (·.call))) =
+      (C04.cwatershedModel surf markers vBc.shape bc).res.getD j 0 ∧
+    solo (compile kcs) t m ((KLoc.mk aSt (j : Int)).toLoc (kcs.map (·.call))) =
+      (((C04.cwatershedModel surf markers vBc.shape bc).status.getD j 0 : Nat) : Int) ∧
+    solo (compile kcs) t m ((KLoc.mk aLn (j : Int)).toLoc (kcs.map (·.call))) =
+      (if (C04.cwatershedModel surf markers vBc.shape bc).lines.getD j false = true then 1 else 0) :=
+  cwatershed_solo_value kcs t vS vM vBc surf markers bc aS aM aBc aRes aSt aQ aLn aT aR hk hd hms hb m hres hln hmk j hj
 
 /-! ## T4, round 3 — well-formed roles, generic calls, exception paths -/
 
@@ -747,5 +765,23 @@ example :
     (List.range 4).map (fun (j : Nat) => solo (compile [kl2.call cl]) 0 m1 ((KLoc.mk 6 (j : Int)).toLoc [cl])) =
       [1, 0, 0, 2] := by
   decide +kernel
+
+/-- round 3, cwatershed: 2×2 surface `[1,2,3,4]`, markers `[1,0,0,2]`, 3×3 cross: the solo run of the step program
+leaves `res = [1,1,1,2]` of `C04.cwatershedModel` in array 10 and `status` all black in array 11 -/
+example :
+    let v22 : C08.View := { base := 0, shape := [2, 2], strides := [2, 1] }
+    let vB : C08.View := { base := 0, shape := [3, 3], strides := [3, 1] }
+    let bc : Array Int := #[0, 1, 0, 1, 1, 1, 0, 1, 0]
+    let kw : Kernel := .cwatershed v22 v22 vB ⟨[2, 2], #[1, 2, 3, 4]⟩ ⟨[2, 2], #[1, 0, 0, 2]⟩ bc
+    let cw : Call := ⟨[1, 2, 3], [10, 11, 12, 13, 14, 15]⟩
+    let m0 : Mem := memOf [cw] [(⟨1, 0⟩, 1), (⟨1, 1⟩, 2), (⟨1, 2⟩, 3), (⟨1, 3⟩, 4), (⟨2, 0⟩, 1), (⟨2, 3⟩, 2)]
+    (List.range 4).map (fun (j : Nat) => solo (compile [kw.call cw]) 0 m0 ((KLoc.mk 10 (j : Int)).toLoc [cw])) =
+      (C04.cwatershedModel ⟨[2, 2], #[1, 2, 3, 4]⟩ ⟨[2, 2], #[1, 0, 0, 2]⟩ [3, 3] bc).res.toList ∧
+    (C04.cwatershedModel ⟨[2, 2], #[1, 2, 3, 4]⟩ ⟨[2, 2], #[1, 0, 0, 2]⟩ [3, 3] bc).res.toList = [1, 1, 1, 2] ∧
+    (List.range 4).map (fun (j : Nat) => solo (compile [kw.call cw]) 0 m0 ((KLoc.mk 11 (j : Int)).toLoc [cw])) =
+      [2, 2, 2, 2] ∧
+    CDist 2 10 11 12 13 14 15 := by
+  refine ⟨by decide +kernel, by decide +kernel, by decide +kernel, ?_⟩
+  constructor <;> decide
 
 end Mahotas.C12.Examples
